@@ -1,0 +1,438 @@
+//! Verification seam (compiled only with cargo feature `verif`).
+//!
+//! Every source of nondeterminism pushr touches (wall clock, sleeping, process
+//! creation, entropy, the process-global node counter, hash-map iteration order)
+//! is redirected here by import-level shadowing in the modules that use it. With
+//! no environment installed every shim falls through to the real std / rand /
+//! names behaviour, so a `verif` build behaves as shipped.
+use std::cell::{Cell, RefCell};
+use std::collections::BTreeMap;
+use std::fmt;
+use std::hash::{Hash, Hasher};
+use std::io;
+use std::ops::{Deref, DerefMut};
+use std::time::Duration;
+
+/// What the simulator decides for one `Command::spawn`.
+pub enum SpawnOutcome {
+    /// A stub child; `stdout` says whether the child exposes a stdout handle.
+    Child { stdout: bool },
+}
+
+/// The environment a simulator installs for the current thread.
+pub trait Env {
+    /// Current simulated time in microseconds.
+    fn now_us(&mut self) -> u64;
+    /// A blocking sleep of `us` microseconds was requested.
+    fn sleep_us(&mut self, us: u64);
+    /// A process spawn was requested.
+    fn spawn(&mut self, cmd: &str, args: &[String]) -> io::Result<SpawnOutcome>;
+    /// Next word of entropy.
+    fn entropy_u64(&mut self) -> u64;
+}
+
+thread_local! {
+    static ENV: RefCell<Option<Box<dyn Env>>> = RefCell::new(None);
+    static SCHED_HOOK: Cell<Option<fn(&'static str)>> = Cell::new(None);
+    static MAP_SALT: Cell<u64> = Cell::new(0);
+}
+
+/// Installs `env` for the current thread and returns the previous one.
+pub fn install(env: Box<dyn Env>) -> Option<Box<dyn Env>> {
+    ENV.with(|slot| slot.borrow_mut().replace(env))
+}
+
+/// Removes the environment of the current thread.
+pub fn uninstall() -> Option<Box<dyn Env>> {
+    ENV.with(|slot| slot.borrow_mut().take())
+}
+
+/// True if an environment is installed for the current thread.
+pub fn installed() -> bool {
+    ENV.with(|slot| slot.borrow().is_some())
+}
+
+fn with_env<R>(f: impl FnOnce(Option<&mut (dyn Env + 'static)>) -> R) -> R {
+    ENV.with(|slot| {
+        let mut guard = slot.borrow_mut();
+        f(guard.as_deref_mut())
+    })
+}
+
+/// Hook called before every operation on a seam atomic. It is a plain function
+/// pointer kept outside the environment slot so that it may switch tasks.
+pub fn set_sched_hook(hook: Option<fn(&'static str)>) -> Option<fn(&'static str)> {
+    SCHED_HOOK.with(|h| h.replace(hook))
+}
+
+fn sched_point(site: &'static str) {
+    if let Some(h) = SCHED_HOOK.with(|h| h.get()) {
+        h(site);
+    }
+}
+
+/// Salt that decides the iteration order of every `DetMap` on this thread.
+/// 0 means ascending key order.
+pub fn set_map_salt(salt: u64) -> u64 {
+    MAP_SALT.with(|s| s.replace(salt))
+}
+
+pub fn map_salt() -> u64 {
+    MAP_SALT.with(|s| s.get())
+}
+
+// ---------------------------------------------------------------- clock (H1)
+
+#[derive(Clone, Copy, Debug)]
+pub enum Instant {
+    Real(std::time::Instant),
+    Sim(u64),
+}
+
+impl Instant {
+    pub fn now() -> Instant {
+        match with_env(|e| e.map(|e| e.now_us())) {
+            Some(us) => Instant::Sim(us),
+            None => Instant::Real(std::time::Instant::now()),
+        }
+    }
+
+    pub fn elapsed(&self) -> Duration {
+        match self {
+            Instant::Real(i) => i.elapsed(),
+            Instant::Sim(start) => {
+                let now = with_env(|e| e.map(|e| e.now_us())).unwrap_or(*start);
+                Duration::from_micros(now.saturating_sub(*start))
+            }
+        }
+    }
+}
+
+// ------------------------------------------------------- sleep and spawn (H2)
+
+pub mod thread {
+    use std::time::Duration;
+
+    pub fn sleep(d: Duration) {
+        let handled = super::with_env(|e| match e {
+            Some(e) => {
+                e.sleep_us(d.as_micros() as u64);
+                true
+            }
+            None => false,
+        });
+        if !handled {
+            std::thread::sleep(d);
+        }
+    }
+}
+
+pub struct Command {
+    cmd: String,
+    args: Vec<String>,
+}
+
+#[derive(Debug)]
+pub enum ChildStdout {
+    Real(std::process::ChildStdout),
+    Sim,
+}
+
+pub struct Child {
+    pub stdout: Option<ChildStdout>,
+    _real: Option<std::process::Child>,
+}
+
+impl Command {
+    pub fn new<S: AsRef<str>>(cmd: S) -> Command {
+        Command {
+            cmd: cmd.as_ref().to_string(),
+            args: vec![],
+        }
+    }
+
+    pub fn args<I, S>(&mut self, args: I) -> &mut Command
+    where
+        I: IntoIterator<Item = S>,
+        S: AsRef<str>,
+    {
+        for a in args {
+            self.args.push(a.as_ref().to_string());
+        }
+        self
+    }
+
+    pub fn spawn(&mut self) -> io::Result<Child> {
+        let cmd = self.cmd.clone();
+        let args = self.args.clone();
+        match with_env(|e| e.map(|e| e.spawn(&cmd, &args))) {
+            Some(Ok(SpawnOutcome::Child { stdout })) => Ok(Child {
+                stdout: if stdout { Some(ChildStdout::Sim) } else { None },
+                _real: None,
+            }),
+            Some(Err(e)) => Err(e),
+            None => {
+                let mut real = std::process::Command::new(&self.cmd)
+                    .args(&self.args)
+                    .spawn()?;
+                Ok(Child {
+                    stdout: real.stdout.take().map(ChildStdout::Real),
+                    _real: Some(real),
+                })
+            }
+        }
+    }
+}
+
+// ------------------------------------------------------------- entropy (H3)
+
+pub mod rand_shim {
+    pub use ::rand::*;
+
+    use ::rand::distributions::{Distribution, Standard};
+
+    /// Draws from the installed environment, or from the real thread-local
+    /// generator when none is installed.
+    pub struct SeamRng {
+        real: Option<::rand::rngs::ThreadRng>,
+    }
+
+    pub fn thread_rng() -> SeamRng {
+        if super::installed() {
+            SeamRng { real: None }
+        } else {
+            SeamRng {
+                real: Some(::rand::thread_rng()),
+            }
+        }
+    }
+
+    pub fn random<T>() -> T
+    where
+        Standard: Distribution<T>,
+    {
+        thread_rng().gen()
+    }
+
+    fn word() -> u64 {
+        super::with_env(|e| e.map(|e| e.entropy_u64())).unwrap_or(0)
+    }
+
+    impl RngCore for SeamRng {
+        fn next_u32(&mut self) -> u32 {
+            match &mut self.real {
+                Some(r) => r.next_u32(),
+                None => (word() >> 32) as u32,
+            }
+        }
+
+        fn next_u64(&mut self) -> u64 {
+            match &mut self.real {
+                Some(r) => r.next_u64(),
+                None => word(),
+            }
+        }
+
+        fn fill_bytes(&mut self, dest: &mut [u8]) {
+            match &mut self.real {
+                Some(r) => r.fill_bytes(dest),
+                None => {
+                    for chunk in dest.chunks_mut(8) {
+                        let w = word().to_le_bytes();
+                        let n = chunk.len();
+                        chunk.copy_from_slice(&w[..n]);
+                    }
+                }
+            }
+        }
+
+        fn try_fill_bytes(&mut self, dest: &mut [u8]) -> Result<(), Error> {
+            self.fill_bytes(dest);
+            Ok(())
+        }
+    }
+}
+
+pub mod names_shim {
+    const ADJECTIVES: [&str; 16] = [
+        "aged", "bold", "calm", "dark", "eager", "faint", "glad", "hazy", "icy", "jolly", "keen",
+        "lucky", "mute", "neat", "odd", "pale",
+    ];
+    const NOUNS: [&str; 16] = [
+        "ant", "bird", "cave", "dust", "echo", "fern", "gate", "hill", "iron", "jade", "kite",
+        "leaf", "moss", "nest", "oak", "pond",
+    ];
+
+    /// Stand-in for `names::Generator` that draws from the installed environment.
+    pub struct Generator<'a> {
+        real: Option<names::Generator<'a>>,
+    }
+
+    impl<'a> Default for Generator<'a> {
+        fn default() -> Self {
+            if super::installed() {
+                Generator { real: None }
+            } else {
+                Generator {
+                    real: Some(names::Generator::default()),
+                }
+            }
+        }
+    }
+
+    impl<'a> Iterator for Generator<'a> {
+        type Item = String;
+
+        fn next(&mut self) -> Option<String> {
+            match &mut self.real {
+                Some(g) => g.next(),
+                None => {
+                    let w = super::with_env(|e| e.map(|e| e.entropy_u64())).unwrap_or(0);
+                    let a = ADJECTIVES[(w & 15) as usize];
+                    let n = NOUNS[((w >> 4) & 15) as usize];
+                    Some(format!("{}-{}-{}", a, n, (w >> 8) & 0xffff))
+                }
+            }
+        }
+    }
+}
+
+// ------------------------------------------------------ global counter (H4)
+
+/// The real std atomic with a scheduling point before every operation.
+pub struct AtomicUsize(std::sync::atomic::AtomicUsize);
+
+impl AtomicUsize {
+    pub const fn new(v: usize) -> AtomicUsize {
+        AtomicUsize(std::sync::atomic::AtomicUsize::new(v))
+    }
+
+    pub fn fetch_add(&self, v: usize, order: std::sync::atomic::Ordering) -> usize {
+        sched_point("atomic.fetch_add");
+        self.0.fetch_add(v, order)
+    }
+
+    pub fn load(&self, order: std::sync::atomic::Ordering) -> usize {
+        sched_point("atomic.load");
+        self.0.load(order)
+    }
+
+    pub fn store(&self, v: usize, order: std::sync::atomic::Ordering) {
+        sched_point("atomic.store");
+        self.0.store(v, order)
+    }
+
+    pub fn swap(&self, v: usize, order: std::sync::atomic::Ordering) -> usize {
+        sched_point("atomic.swap");
+        self.0.swap(v, order)
+    }
+
+    pub fn compare_exchange(
+        &self,
+        current: usize,
+        new: usize,
+        success: std::sync::atomic::Ordering,
+        failure: std::sync::atomic::Ordering,
+    ) -> Result<usize, usize> {
+        sched_point("atomic.compare_exchange");
+        self.0.compare_exchange(current, new, success, failure)
+    }
+
+    pub fn fetch_max(&self, v: usize, order: std::sync::atomic::Ordering) -> usize {
+        sched_point("atomic.fetch_max");
+        self.0.fetch_max(v, order)
+    }
+}
+
+// ------------------------------------------------- map iteration order (H5/H6)
+
+fn salted<K: Hash>(salt: u64, k: &K) -> u64 {
+    // FNV-1a over the std hasher's input would need a custom Hasher; a fixed-key
+    // SipHash (DefaultHasher::new() uses zero keys) is deterministic across runs.
+    let mut h = std::collections::hash_map::DefaultHasher::new();
+    salt.hash(&mut h);
+    k.hash(&mut h);
+    h.finish()
+}
+
+/// Replacement for `std::collections::HashMap` whose iteration order is a
+/// function of the keys and of `map_salt()` only (ascending keys for salt 0),
+/// instead of a per-process random hash seed.
+pub struct DetMap<K, V>(BTreeMap<K, V>);
+
+impl<K: Ord + Hash, V> DetMap<K, V> {
+    pub fn new() -> Self {
+        DetMap(BTreeMap::new())
+    }
+
+    pub fn iter(&self) -> std::vec::IntoIter<(&K, &V)> {
+        let mut v: Vec<(&K, &V)> = self.0.iter().collect();
+        let salt = map_salt();
+        if salt != 0 {
+            v.sort_by_key(|(k, _)| salted(salt, *k));
+        }
+        v.into_iter()
+    }
+
+    pub fn iter_mut(&mut self) -> std::vec::IntoIter<(&K, &mut V)> {
+        let mut v: Vec<(&K, &mut V)> = self.0.iter_mut().collect();
+        let salt = map_salt();
+        if salt != 0 {
+            v.sort_by_key(|(k, _)| salted(salt, *k));
+        }
+        v.into_iter()
+    }
+
+    pub fn keys(&self) -> std::vec::IntoIter<&K> {
+        self.iter().map(|(k, _)| k).collect::<Vec<_>>().into_iter()
+    }
+
+    pub fn values(&self) -> std::vec::IntoIter<&V> {
+        self.iter().map(|(_, v)| v).collect::<Vec<_>>().into_iter()
+    }
+}
+
+impl<K, V> Deref for DetMap<K, V> {
+    type Target = BTreeMap<K, V>;
+    fn deref(&self) -> &BTreeMap<K, V> {
+        &self.0
+    }
+}
+
+impl<K, V> DerefMut for DetMap<K, V> {
+    fn deref_mut(&mut self) -> &mut BTreeMap<K, V> {
+        &mut self.0
+    }
+}
+
+impl<K: Ord + Hash, V> Default for DetMap<K, V> {
+    fn default() -> Self {
+        DetMap::new()
+    }
+}
+
+impl<K: Clone, V: Clone> Clone for DetMap<K, V> {
+    fn clone(&self) -> Self {
+        DetMap(self.0.clone())
+    }
+}
+
+impl<K: fmt::Debug, V: fmt::Debug> fmt::Debug for DetMap<K, V> {
+    fn fmt(&self, f: &mut fmt::Formatter<'_>) -> fmt::Result {
+        self.0.fmt(f)
+    }
+}
+
+impl<K: PartialEq, V: PartialEq> PartialEq for DetMap<K, V> {
+    fn eq(&self, other: &Self) -> bool {
+        self.0 == other.0
+    }
+}
+
+impl<'a, K: Ord + Hash, V> IntoIterator for &'a DetMap<K, V> {
+    type Item = (&'a K, &'a V);
+    type IntoIter = std::vec::IntoIter<(&'a K, &'a V)>;
+    fn into_iter(self) -> Self::IntoIter {
+        self.iter()
+    }
+}
